@@ -131,18 +131,18 @@ def past_budget_runs(ctx, count):
     return runs
 
 
-def long_runs(ctx, count=1, trials=5200):
+def long_runs(ctx, count=1, trials=5200, judge=(0, 1), dims=(1, 2)):
     """a run far longer than any queue bound or cache size a refactoring might introduce (thousands of intervals)"""
     rng = ctx.rng
     runs = []
     for _ in range(count):
-        n = rng.choice([1, 2])
+        n = rng.choice(list(dims))
         lo, up = rand_box_solver(rng, n)
         w = [b - a for a, b in zip(lo, up)]
         c = [rng.uniform(a, b) for a, b in zip(lo, up)]
         f = lambda y: sum(((t - ci) / wi * 4) ** 2 - 3 * math.cos(2 * math.pi * (t - ci) / wi * 4) for t, ci, wi in zip(y, c, w))   # noqa: E731
         run = SolverRun(FnProblem(n, lo, up, f, "rastrigin-like/long"), r=rng.choice([2.5, 3.0]), eps=1e-7, limit=trials, m=12 if n == 2 else 10,
-                        tag="rastrigin-like/long", full_snap=False, listener="none")
+                        tag="rastrigin-like/long", full_snap=False, listener="none", judge=judge)
         run.solve()
         runs.append(run)
     return runs
